@@ -89,3 +89,148 @@ package tcell
 //@     invariant [best] forall k int :: 0 <= k && k <= rangeindex ==> !(cdist(c, palette[k]) < dist)
 //@     decreases len(palette) - rangeindex
 //@   modifies nothing
+
+// ---------------------------------------------------------------------------
+// C08: CellBuffer - whole-view contracts, unbounded sizes (math ints; y*w+x is nonlinear)
+// ---------------------------------------------------------------------------
+
+//@ pred cbwf(cb *CellBuffer) = cb.w >= 0 && cb.h >= 0 && len(cb.cells) == cb.w*cb.h
+//@ pred inRange(cb *CellBuffer, x int, y int) = x >= 0 && y >= 0 && x < cb.w && y < cb.h
+//@ pred sameCurr(a cell, b cell) = a.currMain == b.currMain && a.currComb == b.currComb && a.currStyle == b.currStyle && a.width == b.width
+//@ pred sameLastTail(a cell, b cell) = a.lastStyle == b.lastStyle && a.lastComb == b.lastComb
+//@ pred sameButLastMain(a cell, b cell) = sameCurr(a, b) && sameLastTail(a, b) && a.lock == b.lock
+//@ pred shapeKept(cb *CellBuffer, w0 int, h0 int, c0 []cell) = cb.w == w0 && cb.h == h0 && cb.cells == c0
+//@ pred isDirty(c cell) = !c.lock && (c.lastMain == 0 || c.lastMain != c.currMain || c.lastStyle != c.currStyle || !seqeq(c.lastComb, c.currComb))
+
+//@ func (*CellBuffer).Size
+//@   arith math
+//@   ensures result0 == cb.w && result1 == cb.h
+//@   modifies nothing
+
+//@ func (*CellBuffer).Dirty
+//@   arith math
+//@   requires cbwf(cb)
+//@   ensures [outside] !inRange(cb, x, y) ==> result == false
+//@   ensures [inside] inRange(cb, x, y) ==> result == isDirty(cb.cells[y*cb.w+x])
+//@   loop 1: invariant [idx] -1 <= rangeindex && rangeindex < len(cb.cells[y*cb.w+x].lastComb)
+//@           invariant [lens] len(cb.cells[y*cb.w+x].lastComb) == len(cb.cells[y*cb.w+x].currComb) && inRange(cb, x, y)
+//@           invariant [eq] forall k int :: 0 <= k && k <= rangeindex ==> cb.cells[y*cb.w+x].lastComb[k] == cb.cells[y*cb.w+x].currComb[k]
+//@           decreases len(cb.cells[y*cb.w+x].lastComb) - rangeindex
+//@   modifies nothing
+
+//@ func (*CellBuffer).SetDirty
+//@   arith math
+//@   requires cbwf(cb)
+//@   ensures [shape] shapeKept(cb, old(cb.w), old(cb.h), old(cb.cells))
+//@   ensures [outside] !inRange(cb, x, y) ==> forall k int :: 0 <= k && k < len(cb.cells) ==> cb.cells[k] == old(cb.cells[k])
+//@   ensures [others] forall k int :: 0 <= k && k < len(cb.cells) && k != y*cb.w+x ==> cb.cells[k] == old(cb.cells[k])
+//@   ensures [force] inRange(cb, x, y) && dirty ==> cb.cells[y*cb.w+x].lastMain == 0 && sameButLastMain(cb.cells[y*cb.w+x], old(cb.cells[y*cb.w+x]))
+//@   ensures [clean] inRange(cb, x, y) && !dirty ==>
+//@              cb.cells[y*cb.w+x].currMain == (old(cb.cells[y*cb.w+x].currMain) == 0 ? ' ' : old(cb.cells[y*cb.w+x].currMain)) &&
+//@              cb.cells[y*cb.w+x].lastMain == cb.cells[y*cb.w+x].currMain &&
+//@              cb.cells[y*cb.w+x].lastComb == cb.cells[y*cb.w+x].currComb && cb.cells[y*cb.w+x].lastStyle == cb.cells[y*cb.w+x].currStyle &&
+//@              cb.cells[y*cb.w+x].currComb == old(cb.cells[y*cb.w+x].currComb) && cb.cells[y*cb.w+x].currStyle == old(cb.cells[y*cb.w+x].currStyle) &&
+//@              cb.cells[y*cb.w+x].width == old(cb.cells[y*cb.w+x].width) && cb.cells[y*cb.w+x].lock == old(cb.cells[y*cb.w+x].lock)
+//@   ensures [notdirty] inRange(cb, x, y) && !dirty ==> !isDirty(cb.cells[y*cb.w+x])
+//@   modifies cb.cells[*]
+
+//@ func (*CellBuffer).Invalidate
+//@   arith math
+//@   requires cbwf(cb)
+//@   ensures [shape] shapeKept(cb, old(cb.w), old(cb.h), old(cb.cells))
+//@   ensures [all] forall k int :: 0 <= k && k < len(cb.cells) ==> cb.cells[k].lastMain == 0 && sameButLastMain(cb.cells[k], old(cb.cells[k]))
+//@   ensures [dirty] forall k int :: 0 <= k && k < len(cb.cells) && !cb.cells[k].lock ==> isDirty(cb.cells[k])
+//@   loop 1: invariant [idx] -1 <= rangeindex && rangeindex < len(cb.cells) && shapeKept(cb, old(cb.w), old(cb.h), old(cb.cells))
+//@           invariant [done] forall k int :: 0 <= k && k <= rangeindex ==> cb.cells[k].lastMain == 0 && sameButLastMain(cb.cells[k], old(cb.cells[k]))
+//@           invariant [rest] forall k int :: rangeindex < k && k < len(cb.cells) ==> cb.cells[k] == old(cb.cells[k])
+//@           decreases len(cb.cells) - rangeindex
+//@   modifies cb.cells[*].lastMain
+
+//@ func (*CellBuffer).LockCell
+//@   arith math
+//@   requires cbwf(cb)
+//@   ensures [shape] shapeKept(cb, old(cb.w), old(cb.h), old(cb.cells))
+//@   ensures [others] forall k int :: 0 <= k && k < len(cb.cells) && (k != y*cb.w+x || !inRange(cb, x, y)) ==> cb.cells[k] == old(cb.cells[k])
+//@   ensures [locked] inRange(cb, x, y) ==> cb.cells[y*cb.w+x].lock && !isDirty(cb.cells[y*cb.w+x]) &&
+//@              sameCurr(cb.cells[y*cb.w+x], old(cb.cells[y*cb.w+x])) && sameLastTail(cb.cells[y*cb.w+x], old(cb.cells[y*cb.w+x])) &&
+//@              cb.cells[y*cb.w+x].lastMain == old(cb.cells[y*cb.w+x].lastMain)
+//@   modifies cb.cells[*].lock
+
+//@ func (*CellBuffer).UnlockCell
+//@   arith math
+//@   requires cbwf(cb)
+//@   ensures [shape] shapeKept(cb, old(cb.w), old(cb.h), old(cb.cells))
+//@   ensures [others] forall k int :: 0 <= k && k < len(cb.cells) && (k != y*cb.w+x || !inRange(cb, x, y)) ==> cb.cells[k] == old(cb.cells[k])
+//@   ensures [unlocked] inRange(cb, x, y) ==> !cb.cells[y*cb.w+x].lock && isDirty(cb.cells[y*cb.w+x]) &&
+//@              sameCurr(cb.cells[y*cb.w+x], old(cb.cells[y*cb.w+x])) && sameLastTail(cb.cells[y*cb.w+x], old(cb.cells[y*cb.w+x]))
+//@   modifies cb.cells[*]
+
+//@ func (*CellBuffer).GetContent
+//@   arith math
+//@   requires cbwf(cb)
+//@   ensures [outside] !inRange(cb, x, y) ==> result0 == 0 && isNil(result1) && result2 == StyleDefault && result3 == 0
+//@   ensures [stored] inRange(cb, x, y) && cb.cells[y*cb.w+x].width != 0 && cb.cells[y*cb.w+x].currMain >= ' ' ==>
+//@              result0 == cb.cells[y*cb.w+x].currMain && result3 == cb.cells[y*cb.w+x].width
+//@   ensures [blank] inRange(cb, x, y) && (cb.cells[y*cb.w+x].width == 0 || cb.cells[y*cb.w+x].currMain < ' ') ==> result0 == ' ' && result3 == 1
+//@   ensures [rest] inRange(cb, x, y) ==> result1 == cb.cells[y*cb.w+x].currComb && result2 == cb.cells[y*cb.w+x].currStyle
+//@   modifies nothing
+
+//@ spec mergeColor(nw Color, old Color) Color = nw == ColorNone ? old : nw
+
+//@ func (*CellBuffer).Fill
+//@   arith math
+//@   requires cbwf(cb)
+//@   ensures [shape] shapeKept(cb, old(cb.w), old(cb.h), old(cb.cells))
+//@   ensures [all] forall k int :: 0 <= k && k < len(cb.cells) ==>
+//@              cb.cells[k].currMain == r && isNil(cb.cells[k].currComb) && cb.cells[k].width == 1 &&
+//@              cb.cells[k].currStyle.fg == mergeColor(style.fg, old(cb.cells[k].currStyle.fg)) &&
+//@              cb.cells[k].currStyle.bg == mergeColor(style.bg, old(cb.cells[k].currStyle.bg)) &&
+//@              cb.cells[k].currStyle.attrs == style.attrs && cb.cells[k].currStyle.ulStyle == style.ulStyle &&
+//@              cb.cells[k].currStyle.ulColor == style.ulColor && cb.cells[k].currStyle.url == style.url && cb.cells[k].currStyle.urlId == style.urlId &&
+//@              cb.cells[k].lastMain == old(cb.cells[k].lastMain) && sameLastTail(cb.cells[k], old(cb.cells[k])) && cb.cells[k].lock == old(cb.cells[k].lock)
+//@   loop 1: invariant [idx] -1 <= rangeindex && rangeindex < len(cb.cells) && shapeKept(cb, old(cb.w), old(cb.h), old(cb.cells))
+//@           invariant [done] forall k int :: 0 <= k && k <= rangeindex ==>
+//@              cb.cells[k].currMain == r && isNil(cb.cells[k].currComb) && cb.cells[k].width == 1 &&
+//@              cb.cells[k].currStyle.fg == mergeColor(style.fg, old(cb.cells[k].currStyle.fg)) &&
+//@              cb.cells[k].currStyle.bg == mergeColor(style.bg, old(cb.cells[k].currStyle.bg)) &&
+//@              cb.cells[k].currStyle.attrs == style.attrs && cb.cells[k].currStyle.ulStyle == style.ulStyle &&
+//@              cb.cells[k].currStyle.ulColor == style.ulColor && cb.cells[k].currStyle.url == style.url && cb.cells[k].currStyle.urlId == style.urlId &&
+//@              cb.cells[k].lastMain == old(cb.cells[k].lastMain) && sameLastTail(cb.cells[k], old(cb.cells[k])) && cb.cells[k].lock == old(cb.cells[k].lock)
+//@           invariant [rest] forall k int :: rangeindex < k && k < len(cb.cells) ==> cb.cells[k] == old(cb.cells[k])
+//@           decreases len(cb.cells) - rangeindex
+//@   modifies cb.cells[*]
+
+//@ pred contentChanged(c0 cell, mainc rune, combc []rune) = c0.width > 0 &&
+//@        (mainc != c0.currMain || len(combc) != len(c0.currComb) || (len(combc) > 0 && !seqeq(combc, c0.currComb)))
+//@ pred inWide(cb *CellBuffer, x int, y int, k int, n int) = y*cb.w+x <= k && k < y*cb.w+x+n && k < y*cb.w+cb.w
+
+//@ func (*CellBuffer).SetContent
+//@   arith math
+//@   requires cbwf(cb)
+//@   ensures [shape] shapeKept(cb, old(cb.w), old(cb.h), old(cb.cells))
+//@   ensures [outside] !inRange(cb, x, y) ==> forall k int :: 0 <= k && k < len(cb.cells) ==> cb.cells[k] == old(cb.cells[k])
+//@   ensures [content] inRange(cb, x, y) ==> cb.cells[y*cb.w+x].currMain == mainc && seqeq(cb.cells[y*cb.w+x].currComb, combc)
+//@   ensures [copied] inRange(cb, x, y) ==> fresh(cb.cells[y*cb.w+x].currComb)
+//@   ensures [style] inRange(cb, x, y) ==>
+//@              cb.cells[y*cb.w+x].currStyle.fg == mergeColor(style.fg, old(cb.cells[y*cb.w+x].currStyle.fg)) &&
+//@              cb.cells[y*cb.w+x].currStyle.bg == mergeColor(style.bg, old(cb.cells[y*cb.w+x].currStyle.bg)) &&
+//@              cb.cells[y*cb.w+x].currStyle.attrs == style.attrs && cb.cells[y*cb.w+x].currStyle.ulStyle == style.ulStyle &&
+//@              cb.cells[y*cb.w+x].currStyle.ulColor == style.ulColor && cb.cells[y*cb.w+x].currStyle.url == style.url && cb.cells[y*cb.w+x].currStyle.urlId == style.urlId
+//@   ensures [width] inRange(cb, x, y) ==> cb.cells[y*cb.w+x].width ==
+//@              (old(cb.cells[y*cb.w+x].currMain) != mainc ? runeWidth(mainc) : old(cb.cells[y*cb.w+x].width))
+//@   ensures [keeps] inRange(cb, x, y) ==> cb.cells[y*cb.w+x].lock == old(cb.cells[y*cb.w+x].lock) && sameLastTail(cb.cells[y*cb.w+x], old(cb.cells[y*cb.w+x]))
+//@   ensures [selfdirty] inRange(cb, x, y) ==> cb.cells[y*cb.w+x].lastMain ==
+//@              (contentChanged(old(cb.cells[y*cb.w+x]), mainc, combc) ? 0 : old(cb.cells[y*cb.w+x].lastMain))
+//@   ensures [wide] inRange(cb, x, y) && contentChanged(old(cb.cells[y*cb.w+x]), mainc, combc) ==>
+//@              forall k int :: 0 <= k && k < len(cb.cells) && k != y*cb.w+x && inWide(cb, x, y, k, old(cb.cells[y*cb.w+x].width)) ==>
+//@                 cb.cells[k].lastMain == 0 && sameButLastMain(cb.cells[k], old(cb.cells[k]))
+//@   ensures [narrow] inRange(cb, x, y) && !contentChanged(old(cb.cells[y*cb.w+x]), mainc, combc) ==>
+//@              forall k int :: 0 <= k && k < len(cb.cells) && k != y*cb.w+x ==> cb.cells[k] == old(cb.cells[k])
+//@   ensures [others] inRange(cb, x, y) && contentChanged(old(cb.cells[y*cb.w+x]), mainc, combc) ==>
+//@              forall k int :: 0 <= k && k < len(cb.cells) && k != y*cb.w+x && !inWide(cb, x, y, k, old(cb.cells[y*cb.w+x].width)) ==> cb.cells[k] == old(cb.cells[k])
+//@   loop 1: invariant [idx] 0 <= i && i <= old(cb.cells[y*cb.w+x].width) && inRange(cb, x, y) && shapeKept(cb, old(cb.w), old(cb.h), old(cb.cells)) && contentChanged(old(cb.cells[y*cb.w+x]), mainc, combc)
+//@           invariant [done] forall k int :: 0 <= k && k < len(cb.cells) && inWide(cb, x, y, k, i) ==>
+//@                 cb.cells[k].lastMain == 0 && sameButLastMain(cb.cells[k], old(cb.cells[k]))
+//@           invariant [rest] forall k int :: 0 <= k && k < len(cb.cells) && !inWide(cb, x, y, k, i) ==> cb.cells[k] == old(cb.cells[k])
+//@           decreases old(cb.cells[y*cb.w+x].width) - i
+//@   modifies cb.cells[*]
